@@ -43,6 +43,8 @@ pub struct Dgram {
     slot: usize,
     key_class: u32,
     counter: u128,
+    /// counter relative to the first send counter of the key it was sealed with
+    offset: u128,
     payload: Vec<u8>,
 }
 
@@ -56,7 +58,7 @@ pub struct Sys {
     /// first send nonce of the sender's key per slot (base for offsets)
     base: [u128; 4],
     ticks: u64,
-    /// acceptances: (slot, key class, counter, tick count at acceptance)
+    /// acceptances: (slot, key class, counter offset within its key, tick count at acceptance)
     accepted: Vec<(usize, u32, u128, u64)>,
     rotations: u32,
     seals: u32,
@@ -89,7 +91,7 @@ impl M {
             .map(|(_, _, c, _)| *c)
             .max();
         match threshold {
-            Some(t) => d.counter > t,
+            Some(t) => d.offset > t,
             None => true,
         }
     }
@@ -106,7 +108,7 @@ impl M {
                 }
                 if record {
                     let d = &s.dgrams[i];
-                    s.accepted.push((d.slot, d.key_class, d.counter, s.ticks));
+                    s.accepted.push((d.slot, d.key_class, d.offset, s.ticks));
                 }
                 Ok(true)
             }
@@ -114,13 +116,13 @@ impl M {
             (Ok(()), false) => Err(Fail::new(
                 "replay_accepted",
                 format!("datagram {} (slot {}, counter offset {}) accepted after {} ticks although something at least as new was accepted two ticks earlier (or its key is gone)",
-                    i, s.dgrams[i].slot, s.dgrams[i].counter.wrapping_sub(s.base[s.dgrams[i].slot]), s.ticks),
+                    i, s.dgrams[i].slot, s.dgrams[i].offset, s.ticks),
             )
             .with("cipher", algo_name(self.algo))),
             (Err(e), true) => Err(Fail::new(
                 "fresh_rejected",
                 format!("datagram {} (slot {}, counter offset {}) rejected ({}) although it is inside the window / newer than everything accepted",
-                    i, s.dgrams[i].slot, s.dgrams[i].counter.wrapping_sub(s.base[s.dgrams[i].slot]), e),
+                    i, s.dgrams[i].slot, s.dgrams[i].offset, e),
             )
             .with("cipher", algo_name(self.algo))),
         }
@@ -136,7 +138,8 @@ impl M {
         s.tx.encrypt(&mut buf);
         let bytes = buf.message().to_vec();
         let slot = (bytes[0] % 4) as usize;
-        let d = Dgram { counter: counter_of(&bytes), slot, key_class: s.tx_slot_key[slot].unwrap(), bytes, payload };
+        let counter = counter_of(&bytes);
+        let d = Dgram { counter, offset: counter.wrapping_sub(s.base[slot]), slot, key_class: s.tx_slot_key[slot].unwrap(), bytes, payload };
         s.dgrams.push(d);
         n
     }
@@ -235,7 +238,7 @@ impl Model for M {
         let mut out = String::new();
         let off = |slot: usize, v: &[u8; 12]| -> i128 {
             let x = util::be96_to_u128(v);
-            if x < (1 << 32) {
+            if x < 2 {
                 // zero, or zero + 1 after a tick without any accepted datagram: absolute (never a real counter,
                 // real counters carry the sender's top byte 0x80)
                 -1 - x as i128
@@ -256,7 +259,7 @@ impl Model for M {
             ));
         }
         for d in &s.dgrams {
-            out.push_str(&format!("d({},{},{})", d.slot, d.key_class, d.counter.wrapping_sub(s.base[d.slot])));
+            out.push_str(&format!("d({},{},{})", d.slot, d.key_class, d.offset));
         }
         // oracle-relevant part of the history: per (slot,key) the max accepted counter by age class 0,1,>=2
         let mut ages: std::collections::BTreeMap<(usize, u32, u64), u128> = Default::default();
@@ -266,7 +269,7 @@ impl Model for M {
             }
             let age = (s.ticks - t).min(2);
             let e = ages.entry((*slot, *kc, age)).or_insert(0);
-            *e = (*e).max(c.wrapping_sub(s.base[*slot]) + 1);
+            *e = (*e).max(*c + 1);
         }
         out.push_str(&format!("{:?} r={} s={}", ages, s.rotations, s.seals));
         out.into_bytes()
@@ -293,8 +296,8 @@ pub fn run(ctx: &Ctx) {
         let (depth, seals, rots) = match (ctx.tier, algo) {
             (Tier::Quick, 1) => (9, 5, 2),
             (Tier::Quick, _) => (8, 4, 1),
-            (Tier::Thorough, 1) => (11, 5, 5),
-            (Tier::Thorough, _) => (10, 5, 2),
+            (Tier::Thorough, 1) => (13, 5, 5),
+            (Tier::Thorough, _) => (12, 5, 3),
         };
         let m = M { algo, max_seals: seals, max_rotations: rots };
         let fam = format!("window_{}", algo_name(algo).to_lowercase());
